@@ -131,12 +131,26 @@ pub fn run(case: &Value, _ctx: &Ctx) -> Outcome {
                     if let Ok(v) = &res {
                         out.check(v.len() as u64 == case["expected"]["items"].as_u64().unwrap_or(u64::MAX), || "stream/npy/item-count".into(), || json!({"got": v.len()}));
                     }
+                    // the recorded call history of the underlying reader (ConsumedAllOnOk / NeverOkAfterFailure on the real run)
+                    let calls = log.lock().unwrap().calls.clone();
+                    let total: usize = calls.iter().filter(|c| c.0 == "read").map(|c| c.1).sum();
+                    let saw_eof = calls.iter().any(|c| c.0 == "read" && c.1 == 0);
+                    let failed = calls.iter().any(|c| c.0 == "fail");
+                    if res.is_ok() {
+                        out.check(total == bytes.len() && saw_eof && !failed, || "stream/npy/ok-without-reading-everything".into(),
+                            || json!({"bytes_read": total, "file_len": bytes.len(), "saw_eof": saw_eof, "failed_call": failed, "calls": calls.len()}));
+                    }
+                    if let Some(pos) = calls.iter().position(|c| c.0 == "fail") {
+                        out.check(calls[pos + 1..].iter().all(|c| c.0 != "read" || c.1 == 0) && res.is_err(), || "stream/npy/continued-after-failure".into(),
+                            || json!({"calls_after_failure": calls.len() - pos - 1, "result_ok": res.is_ok()}));
+                    }
                 }
             }
         }
         "create" => {
             let reference = create_from(std::io::Cursor::new(bytes.clone()));
             let rd = SchedReader::new(bytes.clone(), first, later, fail);
+            let log = rd.log.clone();
             let got = guarded(|| create_from(rd));
             match got {
                 Err(p) => out.fail("stream/create/panic", json!({"panic": p})),
@@ -148,6 +162,12 @@ pub fn run(case: &Value, _ctx: &Ctx) -> Outcome {
                         if let (Ok(a), Ok(b)) = (&res, &reference) {
                             out.check(a == b, || "stream/create/differs-from-unchunked".into(), || json!({"chunked": a, "unchunked": b}));
                         }
+                    }
+                    let calls = log.lock().unwrap().calls.clone();
+                    let total: usize = calls.iter().filter(|c| c.0 == "read").map(|c| c.1).sum();
+                    if res.is_ok() {
+                        out.check(total == bytes.len() && !calls.iter().any(|c| c.0 == "fail"), || "stream/create/ok-without-reading-everything".into(),
+                            || json!({"bytes_read": total, "file_len": bytes.len(), "calls": calls.len()}));
                     }
                 }
             }
